@@ -137,6 +137,44 @@ var deleteBatchLevel = func(run func(cfg Cfg, keys []string, ops []Op, res *Task
 	return seqLevel{Name: fmt.Sprintf("delete-batch-d%d", d), Cfgs: []Cfg{defaultCfg}, Keys: tenByteKeys, Alpha: deleteBatchAlphabet, Depth: d, Dev: d, Run: run}
 }
 
+// rotation sweep: the decision "does this record still fit into the active file" is taken on an ESTIMATE of the
+// record's size; for every remaining room from 480 bytes below to 30 bytes above "value length = remaining room" (the exact fit lies inside: the framing of both records takes up to ~350 bytes), for records of
+// 1 to 13 chunks: a file with more than one record never ends up larger than DataFileSize
+func rotationSweepTasks(tier string) []Task {
+	cfg := defaultCfg
+	cfg.FileSize = 1 << 20
+	var tasks []Task
+	vs := []int{3, 40000, 70000, 200000, 400000}
+	if tier == "thorough" {
+		vs = append(vs, 32768-20, 100000, 163840, 300000, 600000)
+	}
+	for _, v := range vs {
+		for lo := -480; lo < 30; lo += 30 {
+			v, lo := v, lo
+			tasks = append(tasks, Task{Level: "rotation-sweep", Name: fmt.Sprintf("rotation sweep value %d room %d..%d", v, lo, lo+29), Fn: func(res *TaskResult) {
+				for d := lo; d < lo+30; d++ {
+					x := int(cfg.FileSize) - v + d
+					ops := []Op{{K: "put", Key: "a", VC: "F", Arg: x}, {K: "put", Key: "b", VC: "F", Arg: v}, {K: "put", Key: "a", VC: "S"}}
+					announce(func() string { return cfg.String() + " :: " + traceString(ops) })
+					if viol := runC17(cfg, keysAB, ops, res); viol != nil {
+						viol.Prop = "C17"
+						viol.Replay = mustJSON(seqReplay{Engine: "seq", Prop: "C17", Cfg: cfg, Keys: keysAB, Ops: ops, Trace: traceString(ops)})
+						viol.Detail = fmt.Sprintf("cfg=%s trace=[%s]\n%s", cfg, traceString(ops), viol.Detail)
+						addViolation(res, viol)
+						if len(res.Violations) >= 2 {
+							return
+						}
+					}
+				}
+				if len(res.Samples) == 0 {
+					res.Samples = append(res.Samples, fmt.Sprintf("put a (DataFileSize - %d + d bytes), put b (%d bytes), put a S for d in %d..%d", v, v, lo, lo+29))
+				}
+			}})
+		}
+	}
+	return tasks
+}
+
 func init() {
 	register(&Check{
 		Prop:   "C17",
@@ -149,23 +187,23 @@ func init() {
 		},
 		Tasks: func(tier string) []Task {
 			if tier == "quick" {
-				return seqTasks("C17", []seqLevel{
+				return append(seqTasks("C17", []seqLevel{
 					{Name: "long-keys-d5", Cfgs: longKeyCfgs(), Keys: c18LongKeys, Alpha: longKeyMergeAlphabet, Depth: 5, Dev: 3, Run: runC17},
 					{Name: "same-offset-d6", Cfgs: []Cfg{blockCfg()}, Keys: keysAB, Alpha: sameOffsetAlphabet, Depth: 6, Dev: 6, Run: runC17},
 					{Name: "tiny-d3b2", Cfgs: tinyCfgs(), Keys: keysAB, Alpha: tinyAlphabet, Depth: 3, Dev: 2, Run: runC17},
 					{Name: "tiny-d4b2", Cfgs: []Cfg{defaultCfg}, Keys: keysAB, Alpha: tinyAlphabet, Depth: 4, Dev: 2, Run: runC17},
 					{Name: "block-d3b2", Cfgs: []Cfg{blockCfg()}, Keys: keysAB, Alpha: blockAlphabet, Depth: 3, Dev: 2, Run: runC17},
 					deleteBatchLevel(runC17, 3),
-				})
+				}), rotationSweepTasks(tier)...)
 			}
-			return seqTasks("C17", []seqLevel{
+			return append(seqTasks("C17", []seqLevel{
 				{Name: "long-keys-d6", Cfgs: longKeyCfgs(), Keys: c18LongKeys, Alpha: longKeyMergeAlphabet, Depth: 6, Dev: 3, Run: runC17},
 				{Name: "same-offset-d7", Cfgs: []Cfg{blockCfg()}, Keys: keysAB, Alpha: sameOffsetAlphabet, Depth: 7, Dev: 7, Run: runC17},
 				{Name: "tiny-d4b3", Cfgs: tinyCfgs(), Keys: keysAB, Alpha: tinyAlphabet, Depth: 4, Dev: 3, Run: runC17},
 				{Name: "tiny-d5b3", Cfgs: []Cfg{defaultCfg}, Keys: keysAB, Alpha: tinyAlphabet, Depth: 5, Dev: 3, Split: 2, Run: runC17},
 				{Name: "block-d4b3", Cfgs: []Cfg{blockCfg()}, Keys: keysAB, Alpha: blockAlphabet, Depth: 4, Dev: 3, Run: runC17},
 				deleteBatchLevel(runC17, 4),
-			})
+			}), rotationSweepTasks(tier)...)
 		},
 		Replay: func(raw json.RawMessage) { seqReplayMain(raw, runC17) },
 	})
